@@ -736,6 +736,22 @@ def it_collect_prim(vm, m, callee, args):
     return val
 
 
+@native(r'^<(std::vec::Vec<.*>|\[.*\]) as (std::ops::)?Index(Mut)?<usize>>::index(_mut)?$', 'vec[i] / slice[i] (panics when out of range)')
+def vec_index(vm, m, callee, args):
+    s = dv(vm, args[0])
+    while isinstance(s, Ref):
+        s = dv(vm, s)
+    i = concrete_int(dv(vm, args[1]))
+    if not isinstance(s, Seq) or i is None:
+        raise Unsupported('vec[i] of %r' % (s,))
+    if i >= len(s.items):
+        raise NativePanic('index out of bounds: the len is %d but the index is %d' % (len(s.items), i))
+    holder = args[0]
+    while isinstance(holder, Ref) and isinstance(vm._get(holder.cell, holder.path), Ref):
+        holder = vm._get(holder.cell, holder.path)
+    return Ref(holder.cell, holder.path + (('index', i),)) if isinstance(holder, Ref) else Ref(Cell(s.items[i]))
+
+
 @native(r'^<\[.*\] as (std::ops::)?Index<(std::ops::)?RangeFrom<usize>>>::index$', 'slice[start..]')
 def slice_from(vm, m, callee, args):
     s = dv(vm, args[0])
